@@ -10,7 +10,7 @@
   Replies are already-decoded `Response`s (Model/Wire.lean) in the order the server wrote them.
 -/
 import JrpcVerif.Model.Wire
-namespace Jrpc
+namespace Jrpc.Client
 
 def u64Max : Nat := 18446744073709551615
 
@@ -170,4 +170,4 @@ def lastWith (k : Nat) : List Response → Option Response
     | some r => some r
     | none => if idNum rp.id = some k then some rp else none
 
-end Jrpc
+end Jrpc.Client
